@@ -7,7 +7,47 @@ T_AIO = "T-aio: assumed contracts of asyncio (streams, wait_for, wait, gather, s
 T_CONN = "T-conn: Connection container view (absent/pending/done per key) — DESIGN.md 2.4, validated by a bounded differential test"
 T_IND = "T-ind: induction principle — an invariant re-established by every atomic block holds in every reachable state (DESIGN.md 2.6)"
 
+T_PATH = "T-path: pathlib axioms (constructor, /, parent, parts, name, relative_to, is_relative_to; J1 str/parse round trip) — DESIGN.md 3.2, cross-checked by rt/c02_rt.py"
+
+
+def c02_rt(tier, seed):
+    from pyvc.rtcheck import run_rt
+
+    return run_rt("c02_rt.py", "aioftp.server:Server.get_paths::Server.get_paths", tier, seed, 3000, 200000)
+
+
+NOT_APPLICABLE = {}
+
 PROPS = {
+    "C02": {
+        "modules": ["contracts.c02_paths"],
+        "level": "proof",
+        "extra": ["contracts.index.c02_rt"],
+        "trusted_base": [T_PY, T_ENGINE, T_SOLVER, T_PATH, T_CONN],
+        "assumptions": ["A-home: configured home_path values are normalised absolute paths (no '..' component)"],
+        "not_decided": ["symlinks (the property is lexical)", "behaviour of a real Windows file system"],
+        "explanation": "",
+    },
+    "C03": {
+        "modules": ["contracts.server_units", "contracts.c03_auth"],
+        "level": "proof",
+        "trusted_base": [T_PY, T_ENGINE, T_SOLVER, T_AIO, T_CONN, T_IND, T_PATH],
+        "assumptions": [
+            "SEQ: the client sends one command at a time (C03's quantifier is over command sequences); between suspension points of a handler only data_connection and extra_workers may change",
+            "A-um: the shipped MemoryUserManager is the user manager (custom managers are outside the claim); its methods do not suspend",
+        ],
+        "not_decided": ["custom user managers", "pipelined commands racing a handler across a suspension point (PIPE interference; DESIGN.md F-C03-a)"],
+        "explanation": "",
+    },
+    "C11": {
+        "modules": ["contracts.c11_ports", "contracts.server_units"],
+        "unit_filter": ["Server._start_passive_server", "Server._start_passive_server#PIPE", "Server.pasv#SEQ", "Server.epsv#SEQ"],
+        "level": "proof",
+        "trusted_base": [T_PY, T_ENGINE, T_SOLVER, T_AIO, T_CONN, T_IND],
+        "assumptions": ["PriorityQueue modelled as a multiset of ports (priorities ignored: the ledger is about ports)"],
+        "not_decided": ["fairness of the retry order", "sockets CPython may leak when start_server itself is cancelled", "termination of the retry loop (|configured \\ viewed| decreases: not proved)"],
+        "explanation": "",
+    },
     "C10": {
         "modules": ["contracts.c10_limits"],
         "level": "proof",
